@@ -24,7 +24,8 @@ CLAIMED['C08'] = dict(
     text='Every instantiation shape of the central dispatch tao::pegtl::match<> (five action shapes x apply mode x rewind mode x control with/without unwind x '
          'enable on/off) is enumerated completely, exceptional exits included; the table of (hook sequence, exit, result, cursor) must satisfy H1-H7 of DESIGN.md 4.3. '
          'Every hook of every shipped control wrapper (remove_first_state, remove_last_states, shuffle_states, state_control) must forward exactly once with the documented '
-         'state permutation. The balance start = success + failure + unwind then follows for every rule attempt of every grammar and input. One recorded finding (D11).',
+         'state permutation. The shipped stateful controls keep their rule stack in step (coverage: count own and branch counters once each, branch under the parent, push after / pop before counting; trace: one push / one pop). '
+         'The balance start = success + failure + unwind then follows for every rule and branch of every grammar and input. One recorded finding (D11).',
     ref='4.3, 5/C08')
 
 CLAIMED['C13'] = dict(
